@@ -155,3 +155,54 @@ def arm_blocks(body, sw, variant):
             shared |= reachable_edges(body, o, avoid=[sw.b] + [x for x in tg if x != o])
     # variants that share this very arm entry keep it
     return mine - shared
+
+
+def switch_reads_local(body, sw, local):
+    """the switch tests the current value of `local` itself (`switch(copy local)`, possibly through one temporary)"""
+    opp = op_place(sw.t['op'])
+    if opp is None:
+        return False
+    if opp == [local, []]:
+        return True
+    defs = reaching_defs(body, opp[0], sw.b, 'term')
+    return bool(defs) and all(k == 'assign' and st['rv']['k'] == 'use' and op_place(st['rv']['op']) == [local, []] for (_, _, k, st) in defs)
+
+def flag_regions(body, calls):
+    """`let mut f = false; loop { if call() { f = true; break } } if f {A} else {B}`: a bool local that is initialised
+    to false before every one of `calls`, becomes true exactly on their true edges (on every path from such an edge to
+    the deciding test) and is tested once after all of them.  Returns (local, Switch) or None."""
+    sws = [switch_on_call(body, c) for c in calls]
+    if not calls or any(s is None or s.kind != 'bool' for s in sws):
+        return None
+    assigns = {}
+    bad = set()
+    for i, k, st in body.stmts():
+        if st['k'] == 'assign' and not st['lhs'][1] and body.local_ty(st['lhs'][0]) == 'bool':
+            c = op_const(st['rv']['op']) if st['rv']['k'] == 'use' else None
+            if c is None or not isinstance(c.get('v'), bool):
+                bad.add(st['lhs'][0])
+            else:
+                assigns.setdefault(st['lhs'][0], []).append((i, c['v']))
+    for c in body.calls():
+        if c.dest is not None and not c.dest[1]:
+            bad.add(c.dest[0])
+    for f, sites in sorted(assigns.items()):
+        if f in bad:
+            continue
+        trues = [i for (i, v) in sites if v]; falses = [i for (i, v) in sites if not v]
+        if not trues or not falses:
+            continue
+        if not all(any(only_via_edge(body, s.b, s.target(True), t) for s in sws) for t in trues):
+            continue
+        if not all(all(body.dominates(x, c.bb) for c in calls) for x in falses):
+            continue
+        if any(body.reaches(t, falses) for t in trues):
+            continue
+        dec = [s for s in switches(body) if s.kind == 'bool' and switch_reads_local(body, s, f) and not body.reaches(s.b, [c.bb for c in calls])]
+        if len(dec) != 1:
+            continue
+        d = dec[0]
+        if any(s.target(True) not in trues and body.reaches(s.target(True), [d.b], avoid=set(trues)) for s in sws):
+            continue       # a successful call can reach the test with the flag still false
+        return (f, d)
+    return None
